@@ -145,6 +145,11 @@ def surface_kwargs(s):
     if c is not None:
         if c == 'fresnel':
             kw['coating'] = 'fresnel'
+        elif c[0] == 'fresnel-media':
+            # a Fresnel coating between media of the user's choice (not those of the surface)
+            from optiland.coatings import FresnelCoating
+            from optiland.materials import IdealMaterial
+            kw['coating'] = FresnelCoating(IdealMaterial(n=c[1]), IdealMaterial(n=c[2]))
         else:
             kw['coating'] = SimpleCoating(transmittance=c[1], reflectance=c[2])
     return kw
